@@ -5,6 +5,7 @@
   * `RegOnly app`: no load/store, no `div`/`rem` (a wrong-path division by zero ends the run with its error:
     `Props.C07.mvp60_wrong_path_error`), every label that is used is defined (a wrong-path jump or taken branch to an
     undefined label would do the same).  Any ALU instruction, `mul`, branches, `j`/`jal`/`jalr`, `ret`.
+  * `StraightLineRet app`: no load/store, no branch or jump; `ret` allowed (package R60b).
   * `StraightLine app`: no load/store, no branch or jump, no `ret`: the run falls off the end (or ends with the defined
     error of a `div`/`rem` by zero — there is no wrong path, so `div`/`rem` are allowed).
 -/
@@ -41,5 +42,12 @@ def slInstr (i : Gen.Instr) : Bool :=
 
 /-- register-only programs without control flow -/
 def StraightLine (app : App) : Bool := app.instrs.all slInstr
+
+/-- an instruction of a straight-line register-only program that may `ret` -/
+def slrInstr (i : Gen.Instr) : Bool :=
+  !isMemType i.instructionType && !i.instructionType.IsBranch
+
+/-- register-only programs without branches and jumps; `ret` allowed anywhere (the run ends at the first one) -/
+def StraightLineRet (app : App) : Bool := app.instrs.all slrInstr
 
 end Model.Mvp60
